@@ -162,6 +162,7 @@ package tchannel
 //@   property C16
 
 //@ func (p *Peer) delSC()
+//@   effect nonblocking
 //@   modifies p.scCount
 //@   ensures p.scCount == uint32(old(p.scCount) - 1)
 //@   property C16
@@ -273,6 +274,7 @@ package tchannel
 //@   property C16
 
 //@ func (l *RootPeerList) Add(hostPort string) (p *Peer)
+//@   effect nonblocking
 //@   requires c16RootInv(l) && hostPort != ""
 //@   modifies l.peersByHostPort
 //@   defines !old(has(l.peersByHostPort, hostPort)) ==> c16rootOf(p) == l
